@@ -8,11 +8,13 @@ mkdir -p work evidence replays
 [ -f harness/Cargo.lock ] || cp /repo/Cargo.lock harness/Cargo.lock
 (cd harness && cargo build --release --offline 2>&1 | tail -3)
 fail=0
+mkdir -p work/sany_tmp
 for f in spec/*.tla; do
   m=$(basename "$f" .tla)
-  if ! (cd spec && timeout 120 java -cp /opt/veriftools/tla/tla2tools.jar:/opt/veriftools/tla/CommunityModules-deps.jar tla2sany.SANY "$m.tla" >/tmp/sany.$$ 2>&1) || grep -q "errors\? \*\*\*\|Fatal\|Could not" /tmp/sany.$$ && grep -qi "error" /tmp/sany.$$; then
+  if ! (cd spec && timeout 120 java -Djava.io.tmpdir="$PWD/../work/sany_tmp" -cp /opt/veriftools/tla/tla2tools.jar:/opt/veriftools/tla/CommunityModules-deps.jar tla2sany.SANY "$m.tla" >/tmp/sany.$$ 2>&1) || grep -q "errors\? \*\*\*\|Fatal\|Could not" /tmp/sany.$$ && grep -qi "error" /tmp/sany.$$; then
     echo "SANY failed on $m"; cat /tmp/sany.$$ | tail -20; fail=1
   fi
 done
 rm -f /tmp/sany.$$
+rm -rf work/sany_tmp
 exit $fail
